@@ -1,4 +1,400 @@
 package main
 
-func cmdCheck(args []string) int { return 2 }
-func cmdClaim(args []string) int { return 2 }
+// "govc check -property Cxx": the registered check. Generates the obligations of every function (and lemma)
+// tagged with the property from /repo's current tree, discharges them, compares with the claimed list in
+// /verif/obligations/<id>.expected, replays refutations where a replay harness is registered and writes evidence.
+
+import (
+	"bufio"
+	"encoding/json"
+	"flag"
+	"fmt"
+	"os"
+	"os/exec"
+	"path/filepath"
+	"regexp"
+	"sort"
+	"strings"
+	"time"
+)
+
+type knownFinding struct {
+	Property   string `json:"property"`
+	Obligation string `json:"obligation"`
+	Status     string `json:"status"` // open | fixed
+	Commit     string `json:"commit,omitempty"`
+	What       string `json:"what"`
+	Witness    string `json:"witness,omitempty"`
+}
+
+type replayEntry struct {
+	Pattern string `json:"obligation"` // regexp on the obligation name
+	Pkg     string `json:"pkg"`        // package directory relative to /repo ("." , "skiplist", ...)
+	File    string `json:"file"`       // test file under /verif/replay
+	Run     string `json:"run"`        // test name
+	What    string `json:"what"`
+}
+
+func readExpected(id string) ([]string, error) {
+	f, err := os.Open(filepath.Join(verifDir, "obligations", id+".expected"))
+	if err != nil {
+		return nil, err
+	}
+	defer f.Close()
+	var out []string
+	sc := bufio.NewScanner(f)
+	for sc.Scan() {
+		l := strings.TrimSpace(sc.Text())
+		if l != "" && !strings.HasPrefix(l, "#") {
+			out = append(out, l)
+		}
+	}
+	return out, nil
+}
+
+func propFuncs(db *ContractDB, id string) (funcs, lemmas []string) {
+	for _, n := range db.Order {
+		for _, p := range db.Funcs[n].Props {
+			if p == id {
+				funcs = append(funcs, n)
+			}
+		}
+	}
+	for _, n := range sortedKeys(db.Axioms) {
+		ax := db.Axioms[n]
+		if !ax.IsLemma {
+			continue
+		}
+		for _, p := range ax.Props {
+			if p == id {
+				lemmas = append(lemmas, n)
+			}
+		}
+	}
+	return
+}
+
+func sanitize(s string) string {
+	return regexp.MustCompile(`[^A-Za-z0-9_.\-]+`).ReplaceAllString(s, "_")
+}
+
+type violation struct {
+	Obligation string `json:"obligation"`
+	Reason     string `json:"reason"` // refuted | undecided | obligation-missing | vacuous-contract | contract-error
+	Detail     string `json:"detail"`
+	SMTFile    string `json:"smt_file,omitempty"`
+	Solver     string `json:"solver_output,omitempty"`
+	Replayed   bool   `json:"replayed_on_real_code"`
+	ReplayCmd  string `json:"replay_cmd,omitempty"`
+	ReplayOut  string `json:"replay_output,omitempty"`
+	ReplayFile string `json:"-"`
+}
+
+func cmdCheck(args []string) int {
+	fs := flag.NewFlagSet("check", flag.ExitOnError)
+	id := fs.String("property", "", "property id")
+	tier := fs.String("tier", "", "quick|thorough")
+	fs.Parse(args)
+	if *tier == "" {
+		*tier = os.Getenv("VERIF_TIER")
+	}
+	if *tier == "" {
+		*tier = "quick"
+	}
+	seed := atoiDef(os.Getenv("VERIF_SEED"), 0)
+	code, _ := runCheck(*id, *tier, seed, true)
+	return code
+}
+
+func runCheck(id, tier string, seed int, writeEvidence bool) (int, []violation) {
+	t0 := time.Now()
+	timeout := 10
+	if tier == "thorough" {
+		timeout = 60
+	}
+	outDir := filepath.Join(verifDir, "replays_out", id)
+	os.RemoveAll(outDir)
+	os.MkdirAll(outDir, 0o755)
+	work, _ := os.MkdirTemp("", "govc-"+id+"-")
+	defer os.RemoveAll(work)
+
+	var viols []violation
+	P, db, err := loadAll()
+	var rr *runResult
+	expected, eerr := readExpected(id)
+	if eerr != nil {
+		fmt.Fprintln(os.Stderr, "no claimed obligation list:", eerr)
+		return 2, nil
+	}
+	var funcs, lemmas []string
+	if err != nil {
+		if P == nil {
+			// the tree does not load: nothing can be verified
+			fmt.Fprintln(os.Stderr, "engine: cannot load /repo:", err)
+			return 2, nil
+		}
+		// contract files no longer parse
+		viols = append(viols, violation{Obligation: "*", Reason: "contract-error", Detail: err.Error()})
+		rr = &runResult{aggs: map[string]*aggObl{}}
+	} else {
+		funcs, lemmas = propFuncs(db, id)
+		rr = verifyFuncs(P, db, funcs, lemmas, work, timeout, seed)
+		if tier == "thorough" {
+			// second seed: verdicts must not depend on it
+			rr2 := verifyFuncs(P, db, funcs, lemmas, filepath.Join(work, "s2"), timeout, seed+1)
+			for n, a := range rr2.aggs {
+				if b, ok := rr.aggs[n]; ok && (a.Result == "discharged") != (b.Result == "discharged") && b.Result == "discharged" {
+					rr.aggs[n] = a
+				}
+			}
+			rr.solverMs += rr2.solverMs
+		}
+	}
+	claimed := map[string]bool{}
+	for _, e := range expected {
+		claimed[e] = true
+	}
+	discharged := 0
+	for _, e := range expected {
+		a := rr.aggs[e]
+		switch {
+		case a == nil:
+			detail := "claimed obligation is no longer generated (function, loop or clause removed/renamed, or its contract no longer type-checks)"
+			for _, er := range rr.errs {
+				fn := strings.SplitN(e, "#", 2)[0]
+				if strings.Contains(er, fn) {
+					detail += "; " + er
+				}
+			}
+			viols = append(viols, violation{Obligation: e, Reason: "obligation-missing", Detail: detail})
+		case a.Result == "discharged" || a.Result == "cover-ok" || a.Result == "cover-unknown":
+			discharged++
+		case a.Result == "vacuous":
+			viols = append(viols, violation{Obligation: e, Reason: "vacuous-contract", Detail: "the precondition of the function is unsatisfiable", SMTFile: a.Bad.File})
+		case a.Result == "refuted":
+			v := violation{Obligation: e, Reason: "refuted", Detail: a.Bad.Info, SMTFile: a.Bad.File}
+			v.Solver = modelFor(rr.g, a.Bad, work, timeout)
+			viols = append(viols, v)
+		default:
+			v := violation{Obligation: e, Reason: "undecided", Detail: a.Bad.Info + " (solvers: " + strings.SplitN(a.Bad.Model, "\n", 2)[0] + ")", SMTFile: a.Bad.File}
+			viols = append(viols, v)
+		}
+	}
+	// contract errors in functions of this property that produced no claimed-obligation failure yet
+	for _, er := range rr.errs {
+		covered := false
+		for _, v := range viols {
+			if strings.Contains(v.Detail, er) {
+				covered = true
+			}
+		}
+		if !covered {
+			viols = append(viols, violation{Obligation: "contract", Reason: "contract-error", Detail: er})
+		}
+	}
+	// known findings
+	var kfs []knownFinding
+	if b, err := os.ReadFile(filepath.Join(verifDir, "known-findings.json")); err == nil {
+		json.Unmarshal(b, &kfs)
+	}
+	var real []violation
+	for _, v := range viols {
+		known := false
+		for _, k := range kfs {
+			if k.Status == "open" && k.Property == id && k.Obligation == v.Obligation && v.Reason != "obligation-missing" {
+				fmt.Printf("KNOWN-FINDING: property=%s %s (%s)\n", id, k.What, k.Obligation)
+				known = true
+			}
+		}
+		if !known {
+			real = append(real, v)
+		}
+	}
+	// replay and report
+	replays := loadReplayIndex()
+	for i := range real {
+		v := &real[i]
+		for _, re := range replays {
+			if ok, _ := regexp.MatchString(re.Pattern, v.Obligation); ok {
+				out, failed, cmd := runReplay(re)
+				v.ReplayCmd, v.ReplayOut, v.Replayed = cmd, out, failed
+				break
+			}
+		}
+		rf := filepath.Join(outDir, sanitize(v.Obligation)+".json")
+		if v.SMTFile != "" {
+			dst := filepath.Join(outDir, sanitize(v.Obligation)+".smt2")
+			if b, err := os.ReadFile(v.SMTFile); err == nil {
+				os.WriteFile(dst, b, 0o644)
+				v.SMTFile = dst
+			}
+		}
+		writeJSON(rf, map[string]interface{}{"property": id, "violation": v})
+		v.ReplayFile = rf
+		suffix := ""
+		if !v.Replayed {
+			suffix = " no-failing-input-found"
+		}
+		fmt.Printf("VIOLATION property=%s replay=%s obligation=%s reason=%s%s\n", id, rf, v.Obligation, v.Reason, suffix)
+	}
+	if writeEvidence {
+		writeEvidenceFile(id, tier, seed, rr, expected, claimed, discharged, len(real), time.Since(t0).Seconds(), funcs)
+	}
+	fmt.Printf("property=%s tier=%s functions=%d claimed=%d discharged=%d violations=%d wall=%.1fs\n", id, tier, len(funcs), len(expected), discharged, len(real), time.Since(t0).Seconds())
+	if len(real) > 0 {
+		return 1, real
+	}
+	return 0, nil
+}
+
+func loadReplayIndex() []replayEntry {
+	var out []replayEntry
+	if b, err := os.ReadFile(filepath.Join(verifDir, "replay", "index.json")); err == nil {
+		json.Unmarshal(b, &out)
+	}
+	return out
+}
+
+// runReplay injects a test file into the package with -overlay and runs it; the test fails iff the defect manifests.
+func runReplay(re replayEntry) (string, bool, string) {
+	tmp, _ := os.MkdirTemp("", "govc-replay-")
+	defer os.RemoveAll(tmp)
+	pkgDir := filepath.Join(repoDir(), re.Pkg)
+	target := filepath.Join(pkgDir, "zz_verif_replay_test.go")
+	ov := map[string]map[string]string{"Replace": {target: filepath.Join(verifDir, "replay", re.File)}}
+	ovf := filepath.Join(tmp, "ov.json")
+	b, _ := json.Marshal(ov)
+	os.WriteFile(ovf, b, 0o644)
+	args := []string{"test", "-tags", "verif", "-overlay", ovf, "-vet=off", "-count=1", "-timeout", "120s", "-run", "^" + re.Run + "$", "."}
+	cmd := exec.Command("go", args...)
+	cmd.Dir = pkgDir
+	cmd.Env = append(os.Environ(), "GOFLAGS=-mod=mod", "GOPROXY=off", "GOSUMDB=off", "GOTOOLCHAIN=local", "GOCACHE="+filepath.Join(tmp, "gocache"))
+	out, err := cmd.CombinedOutput()
+	s := string(out)
+	if len(s) > 6000 {
+		s = s[:3000] + "\n...\n" + s[len(s)-3000:]
+	}
+	failed := err != nil && strings.Contains(s, "FAIL")
+	return s, failed, "cd " + pkgDir + " && go " + strings.Join(args, " ")
+}
+
+func writeEvidenceFile(id, tier string, seed int, rr *runResult, expected []string, claimed map[string]bool, discharged, nviol int, wall float64, funcs []string) {
+	type oblOut struct {
+		Name      string `json:"name"`
+		Result    string `json:"result"`
+		Backend   string `json:"backend,omitempty"`
+		Ms        int64  `json:"solver_ms"`
+		Instances int    `json:"path_instances"`
+	}
+	var obls []oblOut
+	var unclaimed []oblOut
+	backends := map[string]int{}
+	for _, n := range sortedKeys(rr.aggs) {
+		a := rr.aggs[n]
+		o := oblOut{a.Name, a.Result, a.Backend, a.Ms, a.Instances}
+		if claimed[n] {
+			obls = append(obls, o)
+			for _, b := range strings.Split(a.Backend, ",") {
+				if b != "" {
+					backends[b]++
+				}
+			}
+		} else {
+			unclaimed = append(unclaimed, o)
+		}
+	}
+	var samples []map[string]interface{}
+	for _, o := range rr.allObls {
+		if claimed[o.Name] && !o.Cover && len(samples) < 3 {
+			goal := o.Goal
+			if len(goal) > 400 {
+				goal = goal[:400] + "..."
+			}
+			samples = append(samples, map[string]interface{}{"obligation": o.Name, "clause": o.Info, "path": o.Path, "assumptions": len(o.PC), "negated_goal_smt": goal, "result": o.Result, "solver": o.Solver, "ms": o.Ms})
+		}
+	}
+	trusted := []string{"govc VC generator (go/ssa -> SMT-LIB) and the SMT solvers z3 4.8.12, z3 5.1.0, cvc5 1.0"}
+	for _, t := range rr.trusted {
+		trusted = append(trusted, "trusted contract: "+t)
+	}
+	assumptions := append([]string{}, rr.notes...)
+	assumptions = append(assumptions,
+		"go/ssa (x/tools v0.29.0) and go/types are the semantics of Go; amd64 layout; skiplist/node.go (non-amd64) is not compiled and not verified",
+		"sync/atomic operations are sequentially consistent single steps; functions are verified sequentially (no interference) unless stated otherwise",
+		"signed 64-bit arithmetic is mathematical (no overflow check); all other integer arithmetic wraps as in Go",
+		"fresh allocations lie above an allocation watermark (never overlap earlier blocks)")
+	level := "proof"
+	cov := map[string]interface{}{
+		"obligations":            len(expected),
+		"discharged":             discharged,
+		"checker_cmd":            fmt.Sprintf("/verif/bin/govc check -property %s -tier %s", id, tier),
+		"trusted_base":           trusted,
+		"functions_under_contract": funcs,
+		"paths":                  rr.paths,
+		"per_obligation":         obls,
+		"unclaimed_obligations":  unclaimed,
+		"backends":               backends,
+		"solver_wall_ms":         rr.solverMs,
+		"samples":                samples,
+		"path_cap_exceeded":      rr.truncated,
+	}
+	ev := map[string]interface{}{
+		"property_id": id, "tier": tier, "seed": seed, "level": level, "coverage": cov,
+		"assumptions": assumptions, "wall_s": wall, "violations": nviol,
+	}
+	if ov, err := os.ReadFile(filepath.Join(verifDir, "obligations", id+".level")); err == nil {
+		l := strings.TrimSpace(string(ov))
+		if l != "" {
+			ev["level"] = l
+			if l == "other" {
+				cov["explanation"] = "named per-function obligations discharged by SMT for all inputs; the property as a whole is only partly decided (see MANIFEST level_note)"
+			}
+		}
+	}
+	sort.Strings(assumptions)
+	writeJSON(filepath.Join(verifDir, "evidence", id+".json"), ev)
+}
+
+// cmdClaim writes /verif/obligations/<id>.expected from the obligations that discharge now.
+func cmdClaim(args []string) int {
+	fs := flag.NewFlagSet("claim", flag.ExitOnError)
+	id := fs.String("property", "", "property id")
+	fs.Parse(args)
+	P, db, err := loadAll()
+	if err != nil {
+		fmt.Fprintln(os.Stderr, err)
+		return 2
+	}
+	funcs, lemmas := propFuncs(db, *id)
+	work, _ := os.MkdirTemp("", "govc-claim-")
+	defer os.RemoveAll(work)
+	// claim only what discharges quickly (< 25% of the quick timeout) under two seeds
+	rr1 := verifyFuncs(P, db, funcs, lemmas, filepath.Join(work, "a"), 10, 1)
+	rr2 := verifyFuncs(P, db, funcs, lemmas, filepath.Join(work, "b"), 10, 2)
+	for _, e := range rr1.errs {
+		fmt.Println("ERROR:", e)
+	}
+	var names []string
+	skipped := 0
+	for _, n := range sortedKeys(rr1.aggs) {
+		a, b := rr1.aggs[n], rr2.aggs[n]
+		ok := func(x *aggObl) bool {
+			return x != nil && (x.Result == "discharged" || x.Result == "cover-ok") && x.Ms/int64(max(1, x.Instances-x.Trivial)) < 2500
+		}
+		if ok(a) && ok(b) {
+			names = append(names, n)
+		} else {
+			skipped++
+			fmt.Printf("not claimed: %s (%s/%s)\n", n, a.Result, func() string {
+				if b == nil {
+					return "missing"
+				}
+				return b.Result
+			}())
+		}
+	}
+	os.MkdirAll(filepath.Join(verifDir, "obligations"), 0o755)
+	os.WriteFile(filepath.Join(verifDir, "obligations", *id+".expected"), []byte(strings.Join(names, "\n")+"\n"), 0o644)
+	fmt.Printf("claimed %d obligations for %s (%d not claimed)\n", len(names), *id, skipped)
+	return 0
+}
